@@ -159,6 +159,19 @@ static bool parse_write(const std::string& t, bool& neg, std::vector<std::pair<I
     }
 }
 
+// the first value mpz_urandomm gives below `bound` from a default GMP state seeded with `seed` -- what IntegerDom::random(g, r, bound)
+// draws right after Integer::seeding(seed) (recomputed here with a state of our own: the library's state is not read)
+static Integer draw_below(uint64_t seed, const Integer& bound) {
+    Integer r(0);
+    if (bound <= 0) return r;
+    gmp_randstate_t st;
+    gmp_randinit_default(st);
+    gmp_randseed_ui(st, (unsigned long)seed);
+    mpz_urandomm(r.get_mpz(), st, bound.get_mpz_const());
+    gmp_randclear(st);
+    return r;
+}
+
 // multi-argument cases:  "<key> a0 a1 … = …"
 static std::string callv(const std::string& key, const std::vector<Integer>& a) {
     IntFactorDom<GivRandom>& IF = *IFp;
@@ -181,6 +194,24 @@ static std::string callv(const std::string& key, const std::vector<Integer>& a) 
     if (key == "miller") return vp::hex_ull(IP.Miller(gen, n));                       // the base is drawn inside (Integer::random, global GMP state):
     if (key == "lehmann") { Integer r(-7); IP.test_Lehmann(gen, r, n); return hz(r); }   // not observable, so these are certified one-sidedly
     if (key == "lehmannb") return vp::hex_ll(IP.Lehmann(gen, n));
+    // ---- the same tests with the base they draw made observable: the library generator is seeded, the base is recomputed
+    //      "millers n seed = base v"      "lehmanns n seed = base r v"  (r = test_Lehmann's value, v = Lehmann's answer)
+    if (key == "millers") {
+        uint64_t sd = (uint64_t)a[1];
+        Integer base = n >= 4 ? draw_below(sd, n - 3) + 2 : Integer(0);
+        Integer::seeding(sd);
+        unsigned int v = IP.Miller(gen, n);
+        return hz(base) + " " + vp::hex_ull(v);
+    }
+    if (key == "lehmanns") {
+        uint64_t sd = (uint64_t)a[1];
+        Integer base = n >= 2 ? draw_below(sd, n - 1) + 1 : Integer(0);
+        Integer r(0);
+        if (n >= 2) { Integer::seeding(sd); IP.test_Lehmann(gen, r, n); }
+        Integer::seeding(sd);
+        int v = IP.Lehmann(gen, n);
+        return hz(base) + " " + hz(r) + " " + vp::hex_ll(v);
+    }
     if (key == "write") {          // write(o, Lf, n) and write(o, n): text parsed strictly, numbers handed to the driver
         std::ostringstream o1, o2;
         std::vector<Integer> Lf;
@@ -299,7 +330,7 @@ static void runv(const std::string& key, const std::vector<Integer>& a) {
     }
 }
 static bool is_vkey(const std::string& k) {
-    for (const char* v : {"lenstra", "pollard", "fermat", "pepin", "isprimer", "localprime", "tabule", "tabule2", "miller", "lehmann", "lehmannb",
+    for (const char* v : {"lenstra", "pollard", "fermat", "pepin", "isprimer", "localprime", "tabule", "tabule2", "miller", "lehmann", "lehmannb", "millers", "lehmanns",
                           "write", "erat", "factorL", "setL", "divinto", "divalias", "setinto", "set1into", "eratinto", "writeinto"}) if (k == v) return true;
     return false;
 }
@@ -454,6 +485,16 @@ static void gen(const std::string& tier, uint64_t seed) {
         runv(k, {Integer((int64_t)n)});
     }
     for (size_t i = 0; i < big.size(); i += (th ? 3 : 17)) for (const char* k : {"miller", "lehmann", "lehmannb"}) runv(k, {big[i]});
+    fflush(stdout);
+    // ---- Miller / Lehmann with the base observable (generator seeded per case, base recomputed): small n with so many seeds that every
+    //      base of [2,n-2] resp. [1,n-1] is drawn (liars included); the guards n < 4; strong pseudoprimes / Carmichael numbers / the 64-bit grid
+    for (long n = -3; n < (th ? 1500 : 260); ++n) {
+        long reps = n < 4 ? 2 : (n < 40 ? 6 * n : (th ? 60 : 30));
+        for (long sd = 0; sd < reps; ++sd) for (const char* k : {"millers", "lehmanns"}) runv(k, {Integer((int64_t)n), Integer((int64_t)(sd * 7919 + n + 10))});
+    }
+    for (auto s : PSP) for (int sd = 0; sd < (th ? 200 : 40); ++sd) for (const char* k : {"millers", "lehmanns"}) runv(k, {Integer(s), Integer((uint64_t)g.below(1u << 30))});
+    for (auto s : CARMICHAEL) for (int sd = 0; sd < (th ? 200 : 40); ++sd) for (const char* k : {"millers", "lehmanns"}) runv(k, {Integer(s), Integer((uint64_t)g.below(1u << 30))});
+    for (size_t i = 0; i < big.size(); i += (th ? 1 : 5)) for (const char* k : {"millers", "lehmanns"}) runv(k, {big[i], Integer((uint64_t)g.below(1u << 30))});
     fflush(stdout);
     // ---- Pollard and Lenstra called directly; write; the sieve variant
     for (size_t i = 0; i < fa.size(); i += (th ? 2 : 5)) {
